@@ -225,8 +225,9 @@ PROPS["C18"] = {
             "the C06 tag cases, the C14 serialise->deserialise predictor pairs and the C15 filter cases (grapheme-rich texts), run in a "
             "build with debug assertions and overflow checks so that every debug_assert! guarding an unchecked access and std's "
             "unsafe-precondition checks panic; judged on 'no operation panics' and on agreement with the model (whose unchecked "
-            "accesses are checked ones yielding ub); non-trivial = distinct case whose operations returned",
+            "accesses are checked ones yielding ub); thorough tier: ~130 small-model histories additionally executed under Miri; non-trivial = distinct case whose operations returned",
     "scopes": {},
+    "extras": [extras.miri_c18],
     "assumptions": ["memory safety inside daachorse and hashbrown and of deserialize_unchecked on self-produced bytes is outside the model"],
 }
 
